@@ -110,8 +110,12 @@ class Pool:
 
             msg = from_repr(json.loads(json.dumps(simple_repr(msg))))
         self._emit("send", (src, dest, msg, prio, self.mid))
-        if dest == self.current and prio == 19 and dest in self.comps:
-            self.urgent.setdefault(dest, collections.deque()).append((src, msg, self.mid))
+        if dest == self.current and prio is not None and 18 < prio <= 19 and dest in self.comps:
+            # re-injection by the destination itself: handed out before any other algorithm message, lower
+            # priority value first, FIFO among equal priorities (as the real priority queue does)
+            q = self.urgent.setdefault(dest, [])
+            q.append((prio, self.mid, src, msg))
+            q.sort(key=lambda e: (e[0], e[1]))
             return
         p = 20 if prio is None else prio
         self.channels.setdefault((src, dest, p), collections.deque()).append((self.mid, msg))
@@ -211,7 +215,7 @@ class Pool:
                 self.current = s[1]
                 self.comps[s[1]].start()
             elif kind == "urgent":
-                src, msg, mid = self.urgent[s[1]].popleft()
+                _prio, mid, src, msg = self.urgent[s[1]].pop(0)
                 self.current = s[1]
                 self.delivered += 1
                 self._emit("deliver", (src, s[1], msg, mid))
